@@ -20,6 +20,7 @@
 #include <string>
 #include <vector>
 
+#include <sys/time.h>
 #include <unistd.h>
 
 namespace vf {
@@ -109,17 +110,23 @@ namespace vf {
       }
       bool expired() const { return elapsed() > deadline_s; }
       // Work distribution; every call also kicks the hang watchdog (see install_crash_handler): a single unit of work that
-      // runs for longer than hang_s seconds is reported as a hang of the library (on the unchanged tree every unit takes
+      // burns more than hang_s seconds of CPU is reported as a hang of the library (on the unchanged tree every unit takes
       // milliseconds to a few seconds).
       unsigned hang_s = 300;
-      bool mine(long long i) const
+      // The watchdog counts CPU time of the process (ITIMER_PROF), not wall-clock time, so that a loaded machine cannot
+      // turn a slow unit of work into a false "hang".
+      void kick() const
       {
-         if (watchdog) {
-            auto now = std::chrono::steady_clock::now();
-            if (now - last_kick > std::chrono::seconds(1)) { last_kick = now; alarm(hang_s); }
+         if (not watchdog) return;
+         auto now = std::chrono::steady_clock::now();
+         if (now - last_kick > std::chrono::milliseconds(500)) {
+            last_kick = now;
+            itimerval it{ };
+            it.it_value.tv_sec = hang_s;
+            setitimer(ITIMER_PROF, &it, nullptr);
          }
-         return (i % shards) == shard;
       }
+      bool mine(long long i) const { kick(); return (i % shards) == shard; }
       bool watchdog = false;
       mutable std::chrono::steady_clock::time_point last_kick = std::chrono::steady_clock::now();
    };
@@ -307,7 +314,7 @@ namespace vf {
    inline void crash_signal(int sig)
    {
       const char* how = sig == SIGSEGV ? "SIGSEGV" : sig == SIGABRT ? "SIGABRT" : sig == SIGFPE ? "SIGFPE"
-                        : sig == SIGBUS ? "SIGBUS" : sig == SIGILL ? "SIGILL" : sig == SIGALRM ? "hang" : "signal";
+                        : sig == SIGBUS ? "SIGBUS" : sig == SIGILL ? "SIGILL" : sig == SIGPROF ? "hang" : "signal";
       crash_emit(how);
       _exit(3);
    }
@@ -327,11 +334,11 @@ namespace vf {
       struct sigaction sa{};
       sa.sa_handler = crash_signal;
       sa.sa_flags = SA_ONSTACK | SA_RESETHAND;
-      for (int sig : { SIGSEGV, SIGABRT, SIGFPE, SIGBUS, SIGILL, SIGALRM }) sigaction(sig, &sa, nullptr);
+      for (int sig : { SIGSEGV, SIGABRT, SIGFPE, SIGBUS, SIGILL, SIGPROF }) sigaction(sig, &sa, nullptr);
       // hang watchdog: re-armed by every Options::mine() call
       if (const char* h = std::getenv("VERIF_HANG_S")) const_cast<Options&>(o).hang_s = unsigned(std::atoi(h));
       const_cast<Options&>(o).watchdog = o.replay.empty();
-      if (o.watchdog) alarm(o.hang_s);
+      if (o.watchdog) { const_cast<Options&>(o).last_kick = std::chrono::steady_clock::now() - std::chrono::seconds(10); o.kick(); }
    }
 }
 
